@@ -62,6 +62,25 @@ class Seconds:
             return -((-us) // US)
         return us // US if us >= 0 else -((-us) // US)
 
+    def _range(self) -> None:
+        c = sym.active()
+        if c is not None and isinstance(self.us, SymInt):
+            c.check(mkbool(z3.And(self.us.e >= -self.FP_RANGE, self.us.e <= self.FP_RANGE)), "fp_lemma_range")
+
+    def __trunc__(self) -> Any:
+        return self.__vt_int__()
+
+    def __floor__(self) -> Any:
+        self._range()
+        return self.us // US
+
+    def __ceil__(self) -> Any:
+        self._range()
+        return -((-self.us) // US)
+
+    def __round__(self, nd: Any = None) -> Any:
+        raise sym.HarnessError("round(total_seconds()) is not modelled")
+
     def __float__(self) -> float:
         if isinstance(self.us, SymInt):
             raise sym.HarnessError("float(total_seconds()) of a symbolic timedelta")
@@ -154,6 +173,18 @@ class TD:
     def __floordiv__(self, k: Any) -> Any:
         if isinstance(k, int) and k > 0:
             return TD(_us=self.us // k)
+        if isinstance(k, TD) and isinstance(k.us, int) and k.us > 0:
+            return self.us // k.us
+        return NotImplemented
+
+    def __mod__(self, k: Any) -> Any:
+        if isinstance(k, TD) and isinstance(k.us, int) and k.us > 0:
+            return TD(_us=self.us % k.us)
+        return NotImplemented
+
+    def __divmod__(self, k: Any) -> Any:
+        if isinstance(k, TD) and isinstance(k.us, int) and k.us > 0:
+            return self.us // k.us, TD(_us=self.us % k.us)
         return NotImplemented
 
     def _cmp(self, o: Any, op: Callable[[Any, Any], Any]) -> Any:
